@@ -3,4 +3,26 @@ def classify(sig, what):
         return 'F1: format date-time is enforced by the lenient strfmt.DateTime.UnmarshalJSON (accepts "" and date-only or other non-RFC3339 spellings) and the generated Validate then checks the re-rendered value, so the model accepts literals the reference validator rejects. Root cause is in go-openapi/strfmt (dependency) plus validation-after-parse in the generated code; no small repair inside go-swagger.'
     if sig.startswith('accepts-invalid-leaf string/byte'):
         return 'F2: format byte: strfmt.Base64 decodes the empty string without error, the reference validator rejects "" as base64. Root cause in go-openapi/strfmt vs validate (dependency disagreement).'
+    parts = sig.split(' | ')
+    strict = sig.startswith('strict ')
+    chain = parts[0].replace('strict ', '').replace('panic ', '')
+    ctx = chain.split('>')
+    gen_true = sig.endswith('gen=true')
+    if sig.startswith('panic ') and chain.endswith('>allOf'):
+        return 'A3: an inline allOf used as a property schema is rendered as an anonymous struct whose optional member with maximum: 0 (a pointer, because zero must be distinguishable) is dereferenced by the validator without a nil check: Validate panics (nil pointer dereference) on a document that omits the member.'
+    if chain.endswith('>allOf') and not gen_true:
+        return 'A1/A2: an inline allOf used as a property (or as a member of another allOf) is rendered as an anonymous struct validated in place: its member properties are rendered Required although the member schema does not require them (A1), and optional numeric/string members with a lower bound are validated without the "if zero, not required" guard (A2) - a document that legitimately omits the member is rejected.'
+    hasmap = any(c.startswith('map') for c in ctx)
+    if 'props+addl>ref' in chain and gen_true:
+        return 'AP1: additionalProperties: {$ref: <validated primitive definition>} next to declared properties is decoded into map[string]*T and the values are not validated: a value violating the bounds of the referenced definition is accepted (at any nesting depth).'
+    if hasmap and not gen_true and 'is required' in what:
+        return 'E2: the counterpart of E1: where the generated loop over map values does call validate.Required on the value (values reached through $ref, maps under a required property), a value that decodes to the Go zero struct - {} for an object whose members are all optional - is reported as "required": a valid document is rejected.'
+    if hasmap and gen_true and ctx[0] not in ('ref2prop', 'optrefprop', 'reqprop+nonnullable'):
+        return 'E1: map values (and array items) of object type are stored by value and the generated loop skips them with `if swag.IsZero(m[k]) { continue } // not required`: a value that decodes to the Go zero struct - {} or only zero-valued members - is never validated, so {"k":{}} is accepted although the value schema has required members / constraints its zero values violate.'
+    if ctx[0] == 'reqprop+nonnullable' and gen_true:
+        return 'NN1: a REQUIRED property of object type marked x-nullable:false is generated as a non-pointer struct with no Required check at all: a document that omits the property is accepted (the documented tolerance only covers scalar zero values being read as absent, which makes them rejected).'
+    if ctx[0] in ('ref2prop', 'optrefprop') and gen_true:
+        return 'R2: a property -> $ref -> $ref -> (array | map | validated primitive) alias chain loses validations of the final target in the referring model: item counts, uniqueItems, property counts, bounds of items/values and, for maps and aliases, the required check of the property itself are not enforced.'
+    if ctx[0] == 'props+addl' and len(ctx) > 1 and ctx[1] == 'ref' and gen_true:
+        return 'AP1: additionalProperties: {$ref: <validated primitive definition>} next to declared properties is decoded into map[string]*T and the values are not validated: a value violating the bounds of the referenced definition is accepted.'
     return None
